@@ -100,8 +100,9 @@ class AgnosticPitch:
     @name.setter
     def name(self, name):
         accidentals = ''.join([c for c in name if c in ['-', '+']])
+        # the first character is the pitch letter (it may be a 'b'); everything after it is an accidental
+        name = name[:1] + name[1:].replace('#', '+').replace('b', '-')
         name = name.upper()
-        name = name.replace('#', '+').replace('b', '-')
 
         check_name = name.replace('+', '').replace('-', '')
         if check_name not in pitches:
